@@ -86,6 +86,37 @@ class Deployment:
         self.install_inmem_interposer()
         self.batch_tasks_calls = []
         self.install_batch_tasks_interposer()
+        self.run_worker_calls = []
+        self.install_run_worker_interposer()
+
+    def install_run_worker_interposer(self):
+        """Observe what each fan-out was ASKED to cover (rows of the file now / n_prior_samples / index array)."""
+        import thejoker.multiproc_helpers as mh
+
+        orig = getattr(mh, "run_worker", None)
+        if orig is None or getattr(orig, "_verif_wrapped", False):
+            return
+        dep = self
+
+        def run_worker(worker, pool, prior_samples_file, task_args=(), n_batches=None, n_prior_samples=None, samples_idx=None, rng=None):
+            try:
+                import h5py
+
+                with h5py.File(prior_samples_file, "r") as f:
+                    n_file = int(f["samples"].shape[0])
+            except Exception:  # noqa: BLE001
+                n_file = None
+            try:
+                dep.run_worker_calls.append({"op": dep.current_op, "worker": getattr(worker, "__name__", "?"), "n_file": n_file, "n_batches": n_batches,
+                                             "n_prior_samples": None if n_prior_samples is None else int(n_prior_samples),
+                                             "samples_idx": None if samples_idx is None else np.array(samples_idx), "pool": id(pool), "pool_maps_before": len(getattr(pool, "map_calls", []))})
+            except Exception:  # noqa: BLE001
+                pass
+            return orig(worker, pool, prior_samples_file, task_args=task_args, n_batches=n_batches, n_prior_samples=n_prior_samples, samples_idx=samples_idx, rng=rng)
+
+        run_worker._verif_wrapped = True
+        mh.run_worker = run_worker
+        self._restore.append((mh, "run_worker", orig))
 
     def install_batch_tasks_interposer(self):
         """Observe every partition the package really asks for (C16)."""
